@@ -31,7 +31,12 @@ def gen(rng, tier) -> str:
         pid = rng.choice(["p1", "p2", "p2", "p3", "p4", "p4", "self:p1", "self:p2", "self:p3", "self:p4", "selfraw", "-"])
         al = rng.randrange(3)
         ret = "-" if rng.random() < 0.6 else f"T{rng.randrange(3)}:0"
-        steps.append(f"D|{fid}|{pid}|x=T{al}:0|{ret}|-")
+        nested = "-"
+        if ret != "-" and rng.random() < 0.3:
+            # the body itself changes what a provider returns (a method that reconfigures its own instance for the next call): the
+            # return value is still judged under the mapping the call STARTED with, the next call under the new one
+            nested = f"set:{rng.choice(['p1', 'p2', 'p2', 'p4'])}={rng.choice(['k:3', 'k:5', 'k:3,n:4', 'k:4,n:2', 'a:2,k:3'])}"
+        steps.append(f"D|{fid}|{pid}|x=T{al}:0|{ret}|{nested}")
         fns[fid] = (al, ret)
         if pid.startswith("self:") and pid[5:] in ("p1", "p2", "p4") and rng.random() < 0.6:
             # the same method through a second instance of its class with a mapping of its own
@@ -74,7 +79,18 @@ def _expected(line: str):
     from impl import parse_scope
 
     acc = ctxcommon.accepts()
-    ann, kind, cur, fns, exp = {}, {}, {}, {}, []
+    ann, kind, cur, fns, exp, sets = {}, {}, {}, {}, [], {}
+    UNKNOWN = object()
+
+    def body_update(fid, verdict):
+        """a body that changes a provider: applied when the body ran; when the oracle has no opinion on that, the provider's
+        mapping is unknown from here on"""
+        if fid in sets:
+            sp, sc = sets[fid]
+            if verdict in ("accepted", "return-rejected"):
+                cur[sp] = dict(sc)
+            elif verdict is None:
+                cur[sp] = UNKNOWN
     for st in line.split("\t")[1:]:
         f = st.split("|")
         if f[0] == "A":
@@ -86,6 +102,10 @@ def _expected(line: str):
             cur[f[1]] = parse_scope(f[2])
         elif f[0] == "D":
             fid, pid, params, ret = f[1:5]
+            sets.pop(fid, None)
+            if len(f) > 5 and f[5].startswith("set:"):
+                sp, sscope = f[5][4:].split("=", 1)
+                sets[fid] = (sp, parse_scope(sscope.replace(",", ";")))
             if pid == "selfraw":
                 exp.append(("decor", "decor pyexc TypeError"))   # "self" on a function without self is refused at decoration
                 fns[fid] = None
@@ -94,11 +114,14 @@ def _expected(line: str):
         elif f[0] == "I":
             base = fns.get(f[2])
             fns[f[1]] = None if base is None else ("self:" + f[3], base[1], base[2])
+            if f[2] in sets:
+                sets[f[1]] = sets[f[2]]
         elif f[0] == "C":
             fid, _names, val, ret = f[1:5]
             d = fns.get(fid)
             if d is None:
                 exp.append(("call", None))
+                body_update(fid, None)
                 continue
             pid, al, ral = d
             p = pid[5:] if pid.startswith("self:") else pid
@@ -106,11 +129,16 @@ def _expected(line: str):
                 scope = {}
             elif kind.get(p) in ("fresh", "long", "falsy"):
                 scope = cur[p]
+                if scope is UNKNOWN:
+                    exp.append(("call", None))
+                    body_update(fid, None)
+                    continue
             elif kind.get(p) in ("bad", "badfalsy", "badstr"):
                 exp.append(("call", "not-a-provider"))   # an object that does not implement the protocol
                 continue
             else:
                 exp.append(("call", None))
+                body_update(fid, None)
                 continue
 
             def ent(name, alias, v):
@@ -128,6 +156,7 @@ def _expected(line: str):
                 exp.append(("call", {"conforms": "accepted", "violates": "return-rejected"}.get(vw)))
             else:
                 exp.append(("call", None))
+            body_update(fid, exp[-1][1])
     return exp
 
 
